@@ -36,6 +36,7 @@ PARTIAL = ["ISI of the Bessel filter / dispersion stays below half the level gap
            "eye-based threshold estimation (GET_EYE: KMeans, KDE) in ook.DSP and ppm.DSP(hard): oracle only",
            "Gaussian pulse shape: oracle only"]
 ASSUMPTIONS = ["scipy's Bessel/sosfiltfilt (C11) and numpy FFT (C02/C07) as modelled there", "sklearn KMeans under a fixed numpy seed"]
+THOROUGH_ROUNDS = 8      # the thorough tier draws the whole generator this many times
 BUDGET = {"quick": 150, "thorough": 900}
 
 SPS = [4, 5, 8, 16, 33, 64]
